@@ -283,3 +283,20 @@ Example C03_regex_inverts_printer_fk_names_except_nonvacuous :
   w_tab_full_text = fks_text [(w_gap, w_k)] ++ w_post /\
   map pf_symbol (fill_const_name w_tab_full_text [mkPfk (B "0") [B "a"] (B "p") [B "id"]]) = [B "fk1"].
 Proof. exact (conj w_fk_decomposition w_fk_result). Qed.
+
+(** 3f. further findings as kernel-evaluated witnesses on the models (each reproduced on the real code, see
+    known_findings.d/C03.json): a bare identifier ending in "check" before "(", a CHECK inside an SQL comment,
+    a two-parameter type on a generated column, a column name with a space on AUTOINCREMENT, a comma before an
+    inline named REFERENCES, [bracket] quoting of a CHECK name; and the printer quoting a blob literal. *)
+Theorem C03_regex_inverts_printer_refuted_more :
+  fill_checks (B "CREATE TABLE health_check (id int)") = [(None, B "(id int)")] /\
+  fill_checks (B "CREATE TABLE t (a int, /* CHECK (a > 1) */ b int)") = [(None, B "(a > 1)")] /\
+  set_gen_expr (B "b") (B "CREATE TABLE t (a int, b numeric(10,2) AS (a * 2) STORED)") = GenNotFound /\
+  autoinc (B "CREATE TABLE t (""my col"" INTEGER PRIMARY KEY AUTOINCREMENT, b int)") [B "my col"; B "b"] [B "my col"] = AutoNone /\
+  map pf_symbol (fill_const_name (B "CREATE TABLE t (cx int CHECK (cx IN (1, 2, 3)) CONSTRAINT fk_a REFERENCES y (c))")
+                   [mkPfk (B "0") [B "cx"] (B "y") [B "c"]]) = [B "0"] /\
+  map pf_symbol (fill_const_name (B "CREATE TABLE t (cx int CHECK (cx > 0) CONSTRAINT fk_a REFERENCES y (c))")
+                   [mkPfk (B "0") [B "cx"] (B "y") [B "c"]]) = [B "fk_a"] /\
+  fill_checks (B "CREATE TABLE [t] ([a] int, CONSTRAINT [ck] CHECK (a > 0))") = [(None, B "(a > 0)")].
+Proof. exact w_more. Qed.
+Print Assumptions C03_regex_inverts_printer_refuted_more.
